@@ -266,9 +266,12 @@ pub fn pygen(out_path: &str, tier: Tier, seed: u64) -> i32 {
         if crate::refm::ref_distance(&spec, &centre, &sc.problem.start) < rad + 0.02 * diam {
             continue;
         }
+        let target = if r.bool(0.7) { "validity" } else { "goal" };
+        // a goal fault must be able to hit states that satisfy the goal: the inner part of the
+        // goal disc raises / misbehaves, its rim still answers
+        let (centre, rad) = if target == "goal" { (sc.problem.goal.centre.clone(), sc.problem.goal.radius * r.range(0.5, 0.9)) } else { (centre, rad) };
         let region = Prim::Shell { centre, r_in: 0.0, r_out: rad };
         let region_json = crate::world::World { prims: vec![region.clone()] }.to_json()[0].clone();
-        let target = if r.bool(0.75) { "validity" } else { "goal" };
         let when = if r.bool(0.6) { "region" } else { "kth" };
         let k = r.below(10) as u64;
         // core expectation for region faults on the validity callback: the world with F added
